@@ -30,6 +30,12 @@ ASSUMPTIONS = ['default registry (no user registrations): C13 covers registratio
 
 def one_case(rng, tier, classes, cflags, force=None):
     force = force or {}
+    if rng.random() < force.get('deep_star_p', 0.04):
+        heap, root, steps = M.gen_star_case(rng, present=rng.random() < 0.8)
+        style = M.choose_style(rng, steps, False)
+        return {'classes': classes, 'cflags': [f for f in cflags if f[0] != 'Scope'], 'heap': heap,
+                'target': root, 'scope': None, 'root': 'T', 'spelling': M.spell(rng, steps, style),
+                'style': style, 'ignore_missing': rng.random() < 0.4, 'api': rng.choice(['delete', 'Delete'])}
     maxlen = 5 if tier == 'quick' else 8
     heap, root = M.gen_target(rng, rng.choice([2, 3, 4]))
     sroot = force.get('sroot', rng.random() < 0.1)
@@ -62,7 +68,7 @@ def one_case(rng, tier, classes, cflags, force=None):
 
 
 def generate(rng, tier, scale, **focus):
-    n = (1800 if tier == 'quick' else 40000) * scale
+    n = (4000 if tier == 'quick' else 40000) * scale
     classes, cflags = M.class_table(), M.class_flags()
     for _ in range(n):
         yield one_case(rng, tier, classes, cflags, focus)
@@ -158,4 +164,5 @@ def focus(disagreements, facts_changed):
         f['present_p'] = 0.2
     if any('x' in json.dumps(c['spelling']) for c, _ in disagreements):
         f['star_p'] = 0.6
+        f['deep_star_p'] = 0.3
     return f
